@@ -17,7 +17,9 @@ func InitGenesis(ctx sdk.Context, k keeper.Keeper, data types.GenesisState) {
 			k.SetRewardRule(ctx, pool.Id, r)
 		}
 		k.SetPool(ctx, pool)
-		if !k.Expired(ctx, pool) {
+		// a pool whose end height is the importing block's height has not been processed yet
+		// (Expired would take the missing queue entry of the fresh store for "already ended")
+		if pool.EndHeight >= ctx.BlockHeight() {
 			k.EnqueueActivePool(ctx, pool.Id, pool.EndHeight)
 		}
 	}
